@@ -484,10 +484,31 @@ func specialNames(p *Prog, fn *ssa.Function, depth int, out map[string]bool, see
 			case *ssa.Call:
 				f := in.Call.StaticCallee()
 				if f != nil && f == cic {
-					for _, a := range in.Call.Args {
-						if g := globalOf(a); strings.HasPrefix(g, "str") {
-							out[strings.ToLower(globalBytesValue(p, p.Root().Var(g)))] = true
+					// a header *name* test: the other operand is the key (the first data parameter), not the value
+					for i, a := range in.Call.Args {
+						g := globalOf(a)
+						if !strings.HasPrefix(g, "str") || len(in.Call.Args) != 2 {
+							continue
 						}
+						other := in.Call.Args[1-i]
+						for k := 0; k < 4; k++ {
+							switch w := other.(type) {
+							case *ssa.Slice:
+								other = w.X
+								continue
+							case *ssa.Convert:
+								other = w.X
+								continue
+							case *ssa.ChangeType:
+								other = w.X
+								continue
+							}
+							break
+						}
+						if prm, isP := other.(*ssa.Parameter); isP && len(fn.Params) > 2 && prm != fn.Params[1] {
+							continue
+						}
+						out[strings.ToLower(globalBytesValue(p, p.Root().Var(g)))] = true
 					}
 				} else if f != nil && inModule(f) && (recvTypeName(f) == recvTypeName(fn) || recvTypeName(f) == "header") && strings.Contains(strings.ToLower(f.Name()), "special") {
 					specialNames(p, f, depth+1, out, seen)
